@@ -2,7 +2,7 @@
 # tools/seedtable.sh [ids...]: run the checks against every stored seeded change
 # (on a scratch copy of /repo with the change applied); writes seeded/<id>/result.txt
 cd /verif; export VERIF_NO_RETRY=1
-declare -A EXTRA=( [C03-a]="C07 C08" [C15-a]="C05" [C15-b]="C05" [C11-b]="C13" [C16-a]="C05" [C16-b]="C07" [C06-a]="C14 C16" [C17-a]="C02" [C17-b]="C02" [C02-b]="C17" [C19-a]="C19" [C19-b]="C19")
+declare -A EXTRA=( [C02-f]="C18" [C03-a]="C07 C08" [C15-a]="C05" [C15-b]="C05" [C11-b]="C13" [C16-a]="C05" [C16-b]="C07" [C06-a]="C14 C16" [C17-a]="C02" [C17-b]="C02" [C02-b]="C17" [C19-a]="C19" [C19-b]="C19")
 IDS="${*:-$(ls seeded)}"
 for ID in $IDS; do
   D=seeded/$ID
